@@ -157,6 +157,7 @@ class _Matcher:
                 if gid is not None:
                     g = dict(g)
                     g[gid] = (pos, e)
+                    g["lastindex"] = gid  # sre: the group whose closing mark was set last on the successful path
                 yield from self.m(seq, k + 1, e, g)
         elif op in (C.MAX_REPEAT, C.MIN_REPEAT):
             lo, hi, sub = av
@@ -215,6 +216,18 @@ class SMatch:
         if _isinstance(g, str):
             return self.re.groupindex[g]
         return g
+
+    @property
+    def lastindex(self):
+        return self.g.get("lastindex")
+
+    @property
+    def lastgroup(self):
+        li = self.lastindex
+        for name, g in self.re.groupindex.items():
+            if g == li:
+                return name
+        return None
 
     def span(self, g=0):
         g = self._idx(g)
